@@ -16,6 +16,7 @@ import (
 	"sync/atomic"
 	"time"
 
+	"github.com/grailbio/base/errors"
 	"github.com/grailbio/bigslice"
 	"github.com/grailbio/bigslice/exec"
 	"github.com/grailbio/bigslice/frame"
@@ -210,6 +211,9 @@ func runCell(c *Cell, emit func(line)) {
 	idx := int(atomic.AddInt32(&caseSeq, 1)) % len(table)
 	table[idx].reset()
 	table[(idx+1)%len(table)].reset()
+	// every cell is its own experiment: start from an intact sentinel (if an earlier
+	// cell of this process got it modified, that cell has already shown it)
+	errSentinel.(*errors.Error).Severity = errors.Temporary
 	s := c.Spec
 	s.Case = idx
 	o := &Obs{ID: c.ID}
